@@ -471,6 +471,11 @@ def run(ctx: core.Context) -> int:
         for r in core.pmap(w_cancel, [0, 1, 2], ctx.jobs):
             ctx.sub('cancel_queued').merge(r)
         ctx.log('cancel_queued:', ctx.sub('cancel_queued').summary())
+    if not only or 'noop' in only:
+        items = [(si, kind, count) for si in range(3) for kind in ('cc', 'cs') for count in (1, 2)]
+        for r in core.pmap(w_noop, items, ctx.jobs):
+            ctx.sub('noop_events').merge(r)
+        ctx.log('noop_events:', ctx.sub('noop_events').summary())
     if not only or 'procedure' in only:
         items = [(p, s, f) for p in PROCS for s in PROC_SITUATIONS[p] for f in [None] + FAULTS]
         for r in core.pmap(w_proc, items, ctx.jobs):
@@ -498,6 +503,9 @@ def replay(v: core.Violation):
     if v.check.startswith('reply_'):
         r = run_reply_case(c['situation'], c['op'], bytes.fromhex(c['pkt']))
         return [r[1]] if r else []
+    if v.check.startswith('noop_'):
+        r = run_noop_case(c['script'], c['kind'], c['count'], c['at'], c.get('zc'))
+        return [m for ck, _, m in r['viol'] if ck == v.check]
     if v.check.startswith('cancel_'):
         r = run_cancel_case(c['script'], c['at'])
         return [m for ck, _, m in r['viol'] if ck == v.check]
@@ -530,7 +538,7 @@ PROCS = {
 }
 
 PROC_SITUATIONS = {
-    'le_create': ['present', 'absent_cancel', 'present_cancel'],
+    'le_create': ['present', 'absent_cancel', 'present_cancel', 'present_cancel_race'],
     'le_ext_create': ['present', 'absent_cancel'],
     'classic_create': ['present', 'absent', 'present_role_switch_refused'],
     'disconnect_le': ['live', 'dead_handle', 'live_from_peripheral'],
@@ -651,6 +659,8 @@ def run_proc_case(proc, situation, fault, at):
                 w.loop.create_task(w.hosts[other].send_command(hci.HCI_Disconnect_Command(connection_handle=ctxd['peer_handle'], reason=0x13)))
             elif fault == 'local_disconnect' and 'handle' in ctxd:
                 w.loop.create_task(host.send_command(hci.HCI_Disconnect_Command(connection_handle=ctxd['handle'], reason=0x13)))
+            elif fault == 'cancel':
+                w.loop.create_task(host.send_command(hci.HCI_LE_Create_Connection_Cancel_Command()))
             elif fault == 'peer_vanish':
                 try:
                     w.link.remove_controller(w.controllers[other])
@@ -668,6 +678,9 @@ def run_proc_case(proc, situation, fault, at):
 
         w.loop.on_step = on_step
         task = w.loop.create_task(host.send_command(cmd))
+        if situation == 'present_cancel_race':
+            # the cancel is issued while the connection is being established (advertising PDUs in flight)
+            w.loop.advance(1.0, max_steps=50000)
         w.loop.run_quiescent(max_steps=50000)
         if situation.endswith('cancel'):
             t2 = w.loop.create_task(host.send_command(hci.HCI_LE_Create_Connection_Cancel_Command()))
@@ -708,6 +721,14 @@ def run_proc_case(proc, situation, fault, at):
                 verdict = ('proc_concluded_twice', f'{n} completion events for one procedure')
             elif not accepted and n == 1 and not fault:
                 verdict = ('proc_completion_after_error', f'command rejected with status {rs[0][1]:#x} but a completion event was sent')
+        if fault == 'cancel' and verdict is None:
+            cancel_rs = tap.responses(hci.HCI_LE_CREATE_CONNECTION_CANCEL_COMMAND)
+            statuses = [e[3 + 1] if len(e) > 4 else None for e in completions]  # status byte of the LE meta event
+            if len(completions) != 1:
+                verdict = ('proc_cancel_race', f'{len(completions)} completion events for one connection creation that was cancelled while being established (cancel answered {cancel_rs})')
+            elif len(cancel_rs) != 1:
+                verdict = ('proc_cancel_race', f'{len(cancel_rs)} answers to the cancel command')
+            res['cancel'] = cancel_rs
         res['verdict'] = verdict
         return res
     finally:
@@ -723,6 +744,17 @@ def w_proc(arg):
     if base['verdict'] and only_fault is None:
         v = base['verdict']
         st.violation(v[0], {'proc': proc, 'situation': situation, 'fault': None}, f'{proc}/{situation}: {v[1]} {base["excs"]}', {'proc': proc, 'situation': situation, 'fault': None, 'at': 0})
+    if situation == 'present_cancel_race':
+        if only_fault is None:
+            for at in range(0, base['messages'] + 1):
+                r = run_proc_case(proc, situation, 'cancel', at)
+                if r.get('skip'):
+                    continue
+                st.case((proc, situation, 'cancel', at), None)
+                if r['verdict']:
+                    v = r['verdict']
+                    st.violation(v[0], {'proc': proc, 'situation': situation, 'fault': 'cancel'}, f'{proc}/{situation} cancel issued before message {at}: {v[1]}', {'proc': proc, 'situation': situation, 'fault': 'cancel', 'at': at})
+        return st
     if PROCS[proc]['world'].endswith('_conn') or proc in ('le_create', 'classic_create', 'remote_name'):
         for fault in FAULTS:
             if fault != only_fault:
@@ -819,4 +851,104 @@ def w_cancel(script_i):
         st.case((script_i, at), {'script': script_i, 'cancel_before_step': at} if at == 1 else None)
         for check, sig, msg in r['viol']:
             st.violation(check, sig, msg, {'script': script_i, 'at': at})
+    return st
+
+
+# ---------------------------------------------------------------------------
+# sub-check 2c: flow-control-only events (Command Complete / Command Status with opcode 0x0000 that only
+# carry Num_HCI_Command_Packets) arriving at any moment — legal controller behaviour the virtual controller
+# never shows; injected by the harness at every loop step
+# ---------------------------------------------------------------------------
+NOOP_EVENTS = {
+    'cc': bytes.fromhex('040e03010000'),
+    'cs': bytes.fromhex('040f0400010000'),
+}
+
+
+def run_noop_case(script_i, kind, count, at, zero_credit=None):
+    """zero_credit=j: the j-th command response delivered to the host is rewritten to carry
+    Num_HCI_Command_Packets = 0 (the controller closes the command window; legal), so that only the
+    injected flow-control-only event re-opens it."""
+    from bumble import hci
+
+    callers = [[['sync'], ['sync2']], [['sync', 'sync2'], ['sync'], ['unknown']], [['sync2'], ['sync'], ['sync2']]][script_i]
+    cmds = script_commands()
+    with World(2) as w:
+        w.power_on()
+        tap = Tap(w, 0)
+        host = w.hosts[0]
+        results = []
+        steps = [0]
+        injected = [False]
+        escaped = []
+
+        def inject():
+            injected[0] = True
+            for _ in range(count):
+                try:
+                    host.on_packet(NOOP_EVENTS[kind])
+                except Exception as e:  # would propagate into the transport
+                    escaped.append(repr(e))
+
+        if at == -2:
+            inject()  # while the host is idle, before any caller exists
+
+        async def caller(i, names):
+            for n in names:
+                c = cmds[n]()
+                r = await host.send_command(c)
+                results.append((i, c.op_code, r.command_opcode))
+
+        tasks = [w.loop.create_task(caller(i, names)) for i, names in enumerate(callers)]
+        prev = w.loop.on_step
+
+        responses_seen = [0]
+
+        def on_step(handle):
+            if steps[0] == at and not injected[0]:
+                inject()
+            steps[0] += 1
+            if zero_credit is not None and w.loop.classify(handle) == ('c2h', 0):
+                b = handle._args[0]
+                if b[0] == 0x04 and b[1] in (0x0E, 0x0F):
+                    if responses_seen[0] == zero_credit:
+                        b = bytearray(b)
+                        b[3 if b[1] == 0x0E else 4] = 0
+                        handle._args = (bytes(b),)
+                    responses_seen[0] += 1
+            prev(handle)
+
+        w.loop.on_step = on_step
+        w.loop.run_quiescent(max_steps=50000)
+        if zero_credit is not None and any(not t.done() for t in tasks):
+            inject()  # the controller re-opens the window at the very end at the latest
+            w.loop.run_quiescent(max_steps=50000)
+        w.loop.collect_exceptions()
+        viol = []
+        if tap.outstanding_max > 1 and zero_credit is None:
+            viol.append(('noop_two_outstanding', {'kind': 'two_outstanding', 'event': kind}, f'{tap.outstanding_max} commands outstanding after a flow-control-only event: {fmt_log(tap.log)}'))
+        for i, own, got in results:
+            if own != got:
+                viol.append(('noop_misrouted', {'kind': 'misrouted', 'event': kind}, f'caller {i} sent {own:#06x} and was handed the response for {got:#06x}'))
+        pend = [i for i, t in enumerate(tasks) if not t.done()]
+        if pend:
+            viol.append(('noop_caller_pending', {'kind': 'caller_pending', 'event': kind}, f'callers {pend} never completed: {fmt_log(tap.log)}'))
+        for t in tasks:
+            if t.done() and not t.cancelled() and t.exception():
+                viol.append(('noop_caller_error', {'kind': 'caller_error', 'event': kind}, f'caller raised {t.exception()!r}: {fmt_log(tap.log)}'))
+        return {'steps': steps[0], 'viol': viol, 'injected': injected[0]}
+
+
+def w_noop(arg):
+    script_i, kind, count = arg
+    st = core.Stats('noop_events')
+    base = run_noop_case(script_i, kind, count, -1)
+    for zc in (None, 0, 1):
+        for at in [-2] + list(range(0, base['steps'] + 4)):
+            r = run_noop_case(script_i, kind, count, at, zc)
+            if not r['injected']:
+                continue
+            st.case((script_i, kind, count, at, zc), {'script': script_i, 'event': kind, 'count': count, 'before_step': at, 'zero_credit_response': zc} if at == 2 else None)
+            for check, sig, msg in r['viol']:
+                st.violation(check, dict(sig, window_closed=zc is not None), msg, {'script': script_i, 'kind': kind, 'count': count, 'at': at, 'zc': zc})
     return st
